@@ -161,9 +161,11 @@ reg("C16",
     "and ALL interleavings at every source line of the tawazi package (sys.settrace) within the preemption bound (iterative context bounding). Oracle: every operation's outcome equals its outcome when run alone; every DAG built under "
     "concurrency has the node table (ids, argument references, flags, constants, edges) of the DAG built alone and returns the same value on a probe input; no thread is left blocked. "
     "states = distinct (points reached per thread, running thread) configurations at choice points. non-trivial = schedules with at least one real choice",
-    "10 scenarios at sync points (unbounded); 6 scenarios at line points with <= 1 preemption",
-    "10 scenarios at sync points; 10 scenarios at line points with <= 2 preemptions",
-    ["scenario DAGs use main-thread nodes only, so no thread exists that the baton scheduler does not own; the pool and the future sets are per-execution locals",
+    "27 scenarios at synchronisation points with <= 2 preemptions (every switch away from a runnable thread counts); 11 of them at line points with <= 1 preemption "
+    "(c16.QUICK_LINE); horizon 60000 scheduling points per execution",
+    "27 scenarios at synchronisation points with <= 3 preemptions; all of them at line points with <= 2 preemptions (time-capped, simplest first)",
+    ["most scenario DAGs use main-thread nodes only, so no thread exists that the baton scheduler does not own; in the pooled_call scenarios the worker threads of the library's own pools run pure node functions freely (they finish by themselves) while the two scheduler threads interleave under the baton",
+     "every lock object found in a global of a tawazi module is replaced by a cooperative lock before a scenario runs (a real lock held across a baton hand-over would block the process)",
      "line granularity is the finest preemption grain CPython exposes to sys.settrace; library frames (networkx, asyncio, pydantic) are not preemptible"])
 
 reg("C17",
